@@ -81,6 +81,26 @@ SIMS = {
     "st_rel": ("SIM_StunClient_st_rel.cfg", {"reliable": True, "rto": 500000, "gran": 1000, "rm": 16, "rc": 7,
                                              "mech": "st", "preset": "sha", "fp": True, "max_tx": 2, "timeout": 5000000}),
 }
+def _exh(cfg, reliable, mech, maxtx=2):
+    return (cfg, {"reliable": reliable, "rto": 2000, "gran": 1000, "rm": 1, "rc": 2, "mech": mech, "preset": "none",
+                  "fp": False, "max_tx": maxtx, "timeout": 4000}, "bfs", 1000)
+
+
+# exhaustive: EVERY behaviour of the design model up to the depth bound (tiny constants, 1 tick = 1 ms)
+SIMS.update({
+    "exh_unrel4": _exh("EXH_StunClient_unrel4.cfg", False, "none"),
+    "exh_unrel5": _exh("EXH_StunClient_unrel5.cfg", False, "none"),
+    "exh_rel4": _exh("EXH_StunClient_rel4.cfg", True, "none"),
+    "exh_st4": _exh("EXH_StunClient_st4.cfg", False, "st"),
+    "exh_st5": _exh("EXH_StunClient_st5.cfg", False, "st"),
+})
+EXH = {"C05": (["exh_unrel4"], ["exh_unrel5", "exh_rel4", "exh_st5"]),
+       "C06": (["exh_unrel4"], ["exh_unrel5", "exh_rel4"]),
+       "C11": (["exh_unrel4"], ["exh_unrel5", "exh_rel4"]),
+       "C12": (["exh_unrel4"], ["exh_unrel5", "exh_st5"]),
+       "C17": (["exh_st4"], ["exh_st5", "exh_unrel5"]),
+       "C07": (["exh_st4"], ["exh_st5"]),
+       "C15": (["exh_unrel4"], ["exh_unrel5"])}
 MBT = {"C05": ["unrel", "rel_fp", "st"], "C06": ["unrel", "rel_fp"], "C07": ["st", "st_rel"],
        "C10": ["rel_fp", "st_rel"], "C11": ["unrel", "rel_fp"], "C12": ["unrel", "st"], "C13": ["st", "unrel"],
        "C15": ["unrel"], "C17": ["unrel", "st", "st_rel"]}
@@ -89,10 +109,16 @@ MBT = {"C05": ["unrel", "rel_fp", "st"], "C06": ["unrel", "rel_fp"], "C07": ["st
 def mbt(name, tier, seed, wd, bindir):
     """returns (recdir, stats) - behaviours generated by TLC, replayed, predictions compared"""
     import re
-    cfg, dcfg = SIMS[name]
+    ent = SIMS[name]
+    cfg, dcfg = ent[0], ent[1]
+    bfs = len(ent) > 2 and ent[2] == "bfs"
+    tick = ent[3] if len(ent) > 3 else 1
     n = 120 if tier == "quick" else 4000
-    r = tlc_model("MC_StunClient.tla", cfg, wd, workers=1, timeout=1500,
-                  simulate="num=%d" % n, extra="-depth 25 -seed %d" % (seed % 100000))
+    if bfs:
+        r = tlc_model("MC_StunClient.tla", cfg, wd, workers=8, timeout=3000)
+    else:
+        r = tlc_model("MC_StunClient.tla", cfg, wd, workers=1, timeout=1500,
+                      simulate="num=%d" % n, extra="-depth 25 -seed %d" % (seed % 100000))
     if r["violated"]:
         raise ToolError("simulation of %s violates %s" % (cfg, r["violated"]))
     scheds = []
@@ -106,7 +132,8 @@ def mbt(name, tier, seed, wd, bindir):
     with open(sf, "w") as f:
         f.write("\n".join(scheds) + "\n")
     out = os.path.join(wd, "rec-mbt-%s" % name)
-    sh("%s/drive-client mbt --sched %s --cfg '%s' --out %s" % (bindir, sf, json.dumps(dcfg), out), timeout=1800)
+    sh("%s/drive-client mbt --sched %s --cfg '%s' --tick %d --out %s" % (bindir, sf, json.dumps(dcfg), tick, out),
+       timeout=1800)
     pred = {}
     with open(os.path.join(out, "pred.ndjson")) as f:
         for l in f:
@@ -137,7 +164,7 @@ def mbt(name, tier, seed, wd, bindir):
     if div:
         log("[mbt] %s: %d of %d replayed steps diverge from the design model's prediction (advisory): %s"
             % (name, div, steps, json.dumps(first)[:600]))
-    return out, {"sim": name, "behaviours": len(scheds), "steps": steps,
+    return out, {"sim": name, "exhaustive_upto_depth": bfs, "behaviours": len(scheds), "steps": steps,
                  "conformance_divergences": div, "first_divergences": first}
 
 
@@ -280,8 +307,9 @@ def run(prop, tier, seed, replay=None, extra_cov=None):
         for i, (profile, traces, steps) in enumerate(PLANS[prop][tier]):
             recs.append(record(bindir, wd, profile, seed + i, traces, steps))
         mbt_stats = []
-        if not os.environ.get("VERIF_NO_MODEL"):
-            for name in MBT.get(prop, []):
+        if not os.environ.get("VERIF_NO_MBT"):
+            ex = EXH.get(prop, ([], []))
+            for name in MBT.get(prop, []) + ex[0] + (ex[1] if tier == "thorough" else []):
                 out, st = mbt(name, tier, seed, wd, bindir)
                 recs.append((out, st))
                 mbt_stats.append(st)
